@@ -31,6 +31,8 @@ func respCode(r *msg.NewProxyResp) int {
 			return 0
 		}
 		return remotePort(r.RemoteAddr)
+	case strings.Contains(e, "listen tcp"), strings.Contains(e, "listen udp"):
+		return -5
 	case strings.Contains(e, "exceed the max_ports_per_client"):
 		return -10
 	case strings.Contains(e, "already exists"), strings.Contains(e, "already in use"):
